@@ -53,15 +53,18 @@ structure Fits (t : Bytes) : Prop where
   lo : EMIN ≤ (ratRaw t).2
   room : (numParts t).mant * 10 ^ ((ratRaw t).2 - EMAX).toNat ≤ MAXSIG
 
+/-- in particular the digit string itself is `≤ MAXSIG` -/
 theorem Fits.mant {t : Bytes} (h : Fits t) : (numParts t).mant ≤ MAXSIG :=
   Nat.le_trans (Nat.le_mul_of_pos_right _ (Nat.pow_pos (by decide))) h.room
 
+/-- the reader `ratRaw` on a text assembled from its components: signed digit string, exponent of the last digit -/
 theorem ratRaw_numText (neg : Bool) (b : Nat) (ip fp : Bytes) (ex : Option (Bool × Option Bool × Bytes))
     (h : WF b ip fp ex) :
     ratRaw (numText neg (b :: ip) fp ex) =
       (if neg then -(dval 0 ((b :: ip) ++ fp) : Int) else (dval 0 ((b :: ip) ++ fp) : Int), numTextExp fp ex) := by
   simp only [ratRaw, numParts_numText neg b ip fp ex h, numTextExp_eq]
 
+/-- a text that fits is regular (nothing to round) -/
 theorem Fits.regular {t : Bytes} (h : Fits t) : Regular t := ⟨h.gram, h.efield, h.lo, Or.inr h.room⟩
 
 /-- at most 34 significant digits (leading zeros do not count) with the last digit's exponent in `[EMIN, EMAX]`
@@ -152,6 +155,7 @@ theorem equal_jnum_iff_value {t1 t2 : Bytes} (h1 : Fits t1) (h2 : Fits t2) :
 
 /-! ### the predicates are decidable, so concrete instances are checked by evaluation -/
 
+/-- `Fits` as a conjunction of decidable checks (`Json.isValidNumber` decides the grammar) -/
 theorem fits_iff (t : Bytes) : Fits t ↔ (Json.isValidNumber t = true ∧ (numParts t).efield ≤ 6189 ∧
     EMIN ≤ (ratRaw t).2 ∧ (numParts t).mant * 10 ^ ((ratRaw t).2 - EMAX).toNat ≤ MAXSIG) := by
   rw [JsonGrammar.isValidNumber_iff]
@@ -159,6 +163,7 @@ theorem fits_iff (t : Bytes) : Fits t ↔ (Json.isValidNumber t = true ∧ (numP
 
 instance (t : Bytes) : Decidable (Fits t) := decidable_of_iff _ (fits_iff t).symm
 
+/-- `Regular` as a conjunction of decidable checks -/
 theorem regular_iff (t : Bytes) : Regular t ↔ (Json.isValidNumber t = true ∧ (numParts t).efield ≤ 6189 ∧
     EMIN ≤ (ratRaw t).2 ∧ ((round34 (ratRaw t)).2 +
       (if rhe (numParts t).mant (ndrop (numParts t).mant) ≤ MAXSIG then 0 else 1) ≤ EMAX ∨
@@ -198,6 +203,10 @@ example : Fits onePlusUlp ∧ ratVal onePlusUlp = (10000000000000000000000000000
 /-- above `EMAX` but still representable: `1e6144 == 1000e6141` -/
 example : equal (.num (.jnum [0x31, 0x65, 0x36, 0x31, 0x34, 0x34])) (.num (.jnum [0x31, 0x30, 0x30, 0x30, 0x65, 0x36, 0x31, 0x34, 0x31])) = true :=
   (equal_jnum_iff_ratVal (by decide) (by decide)).mpr (by decide)
+
+/-- `Fits.of_34` on the 34-digit text above -/
+example : Fits onePlusUlp :=
+  Fits.of_34 ((JsonGrammar.isValidNumber_iff _).mp (by decide)) (by decide) (by decide) (by decide) (by decide)
 
 /-- the same inside containers, with reordered members: `{"a":[1.0,2],"b":-0}` == `{"b":0.0,"a":[1,20e-1]}` -/
 example : equal
@@ -245,6 +254,7 @@ structure Tiny (t : Bytes) : Prop where
   small : (numParts t).mant = 0 ∨ (6189 < (numParts t).efield ∧ (numParts t).eneg = true) ∨
     ((numParts t).efield ≤ 6189 ∧ (ratRaw t).2 + ((numParts t).ndig : Int) < EMIN - 39)
 
+/-- `Tiny` as a conjunction of decidable checks -/
 theorem tiny_iff (t : Bytes) : Tiny t ↔ (Json.isValidNumber t = true ∧ ((numParts t).mant = 0 ∨
     (6189 < (numParts t).efield ∧ (numParts t).eneg = true) ∨
     ((numParts t).efield ≤ 6189 ∧ (ratRaw t).2 + ((numParts t).ndig : Int) < EMIN - 39))) := by
@@ -370,12 +380,16 @@ theorem numOk_regular {t : Bytes} (h : Regular t) : NumOk (.jnum t) := by
   obtain ⟨c', e', hn⟩ := normalize_fin n c e
   exact ⟨_, hd, by rw [hn]; simp⟩
 
+/-- a tiny text is a number (zero) -/
 theorem numOk_tiny {t : Bytes} (h : Tiny t) : NumOk (.jnum t) := ⟨_, toDecimal_tiny h, by simp⟩
 
+/-- a huge text is not a number -/
 theorem not_numOk_huge {t : Bytes} (h : Huge t) : ¬ NumOk (.jnum t) := by
   rintro ⟨d, hd, _⟩
   rw [toDecimal_huge h] at hd; cases hd
 
+/-- a text of the number grammar is a number unless `decimal128.Parse` reports a range error: never a syntax
+    error, never NaN -/
 theorem numOk_or_range {t : Bytes} (h : Lexical.JNumber t) :
     NumOk (.jnum t) ∨ Dec.parse t = .range (.inf (numParts t).neg) := by
   obtain ⟨neg, b, ip, fp, ex, rfl, hwf⟩ := jnumber_numText h
@@ -457,10 +471,12 @@ def InRangeF : List (Bytes × Val) → Prop
   | (_, x) :: kvs => InRange x ∧ InRangeF kvs
 end
 
+/-- `InRangeL` is "every element is `InRange`" -/
 theorem InRangeL_iff : ∀ {xs : List Val}, InRangeL xs ↔ ∀ x ∈ xs, InRange x
   | [] => by simp [InRangeL]
   | x :: xs => by simp [InRangeL, InRangeL_iff (xs := xs)]
 
+/-- `InRangeF` is "every member value is `InRange`" -/
 theorem InRangeF_iff : ∀ {kvs : List (Bytes × Val)}, InRangeF kvs ↔ ∀ k x, (k, x) ∈ kvs → InRange x
   | [] => by simp [InRangeF]
   | (k, x) :: kvs => by
@@ -526,5 +542,74 @@ theorem search_jsonVal {s expr : Bytes} {d r : Val} {n : INode} (hdoc : Json.dec
 theorem search_results_equiv {a b c : Val} (ha : JV a) (hb : JV b) (hc : JV c) :
     equal a b = equal b a ∧ (equal a b = true → equal b c = true → equal a c = true) :=
   ⟨equal_symm a ha.1 b hb.1, equal_trans a ha.1 b hb.1 c hc.1⟩
+
+/-! ### an end-to-end instance: text → document → search → the laws apply to the result -/
+
+/-- the numbers of `{"a":[1,2.50,-0,1E2],"b":null}` are of moderate size -/
+theorem inRange_docVal : InRange docVal := by
+  simp only [docVal, InRange, InRangeF, InRangeL, and_true]
+  decide
+
+example : JsonVal docVal ∧ NoEnum docVal ∧ equal docVal docVal = true :=
+  have h := decode_jsonVal decode_docText inRange_docVal
+  ⟨h.1, h.2.1, equal_refl _ h.1⟩
+
+/-- the expression `a` compiles to a field access -/
+theorem parse_a : Parser.parse [0x61] = .ok (.field [0x61]) := by
+  have h : (match Parser.parse [0x61] with
+    | .ok (.field [0x61]) => true
+    | _ => false) = true := by decide +kernel
+  split at h
+  · assumption
+  · cases h
+
+/-- `search("a", decode(text))` returns `[1, 2.50, -0, 1E2]`, a `JsonVal`, equal to itself -/
+example : JsonVal (.arr .plain [.num (.jnum [0x31]), .num (.jnum [0x32, 0x2E, 0x35, 0x30]), .num (.jnum [0x2D, 0x30]),
+    .num (.jnum [0x31, 0x45, 0x32])]) ∧ True :=
+  ⟨(search_jsonVal decode_docText inRange_docVal parse_a (by simp [INode.LitsJV])
+    (by unfold search; rw [parse_a]; rfl)).1, trivial⟩
+
+/-- without the range hypothesis the conclusion fails: `[1e7000]` decodes, is not `InRange`, and is not equal to
+    itself (finding KF02) -/
+example : Json.decode [0x5B, 0x31, 0x65, 0x37, 0x30, 0x30, 0x30, 0x5D] = some (.arr .plain [.num (.jnum [0x31, 0x65, 0x37, 0x30, 0x30, 0x30])]) ∧
+    ¬ InRange (.arr .plain [.num (.jnum [0x31, 0x65, 0x37, 0x30, 0x30, 0x30])]) ∧
+    equal (.arr .plain [.num (.jnum [0x31, 0x65, 0x37, 0x30, 0x30, 0x30])]) (.arr .plain [.num (.jnum [0x31, 0x65, 0x37, 0x30, 0x30, 0x30])]) = false := by
+  refine ⟨by rfl, ?_, by decide⟩
+  simp only [InRange, InRangeL, and_true]
+  decide
+
+/-! ## 4. `==` and map-ordered arrays -/
+
+/-- **a definite answer never depends on the order Go picks.**  `EnumPerm x x'`: `x'` is `x` with the elements of
+    every map-ordered (`.enum`) array, at any depth, permuted in any way — what another run of the Go program could
+    have produced.  If the model answers `==` / `!=` at all (it declines, `.nondet`, as soon as a map-ordered array
+    with two or more elements occurs in an operand), every such re-ordering of both operands gets the same answer. -/
+theorem eq_definite_order_free {op : BinOp} (hop : op = .eq ∨ op = .ne) {x y x' y' r : Val}
+    (h : applyBinOp op x y = .ok r) (hx : EnumPerm x x') (hy : EnumPerm y y') : applyBinOp op x' y' = .ok r :=
+  eq_ne_order_free hop h hx hy
+
+/-- the same for `contains` (which looks through the order of its outer array: membership does not depend on it) -/
+theorem contains_definite_order_free {x y x' y' r : Val} (h : contains x y = .ok r) (hx : EnumPerm x x')
+    (hy : EnumPerm y y') : contains x' y' = .ok r :=
+  contains_order_free h hx hy
+
+/-- when exactly the model declines to answer `==` -/
+theorem eq_nondet_iff (x y : Val) : applyBinOp .eq x y = .nondet ↔ (x.hasEnum2 = true ∨ y.hasEnum2 = true) := by
+  rw [eq_spec]
+  cases hx : x.hasEnum2 <;> cases hy : y.hasEnum2 <;> simp
+
+/-- declining is justified: for the map-ordered `[1, 2]` (say `values(@)` of `{"a":1,"b":2}`) and its other order,
+    `==` would be true for one run and false for another; a one-element `values(@)` is compared as usual -/
+example : EnumPerm (.arr .enum [n1, n2]) (.arr .enum [n2, n1]) ∧
+    equal (.arr .enum [n1, n2]) (.arr .enum [n1, n2]) = true ∧ equal (.arr .enum [n1, n2]) (.arr .enum [n2, n1]) = false ∧
+    applyBinOp .eq (.arr .enum [n1, n2]) (.arr .enum [n1, n2]) = .nondet ∧
+    applyBinOp .eq (.arr .enum [n1]) (.arr .plain [n1]) = .ok (.bool true) := by
+  refine ⟨enumPerm_of_perm (List.Perm.swap ..), by decide, by decide, (eq_nondet_iff _ _).mpr (Or.inl (by decide)), ?_⟩
+  rw [eq_spec]; rfl
+
+/-- `values(@) == values(@)` on a two-member object is declined, on a one-member object it is `true` -/
+example : ieval .null (.binop .eq (.objectValuesCurrent) (.objectValuesCurrent)) (.obj [([0x61], n1), ([0x62], n2)]) [] = .nondet ∧
+    ieval .null (.binop .eq (.objectValuesCurrent) (.objectValuesCurrent)) (.obj [([0x61], n1)]) [] = .ok (.bool true) := by
+  constructor <;> rfl
 
 end Jmes.C20B
